@@ -1,8 +1,9 @@
 """proxies used by props/c08.py (entitlement): a bit-vector flag value, a
 membership container with one symbolic Bool per candidate member, and a short
-symbolic string (tuple of symbolic code points over a finite alphabet) together
-with a `str` subclass that lets `phrase in path` reach the solver when the phrase
-is symbolic and the path is concrete.
+symbolic string (tuple of symbolic characters over a finite alphabet, a character
+being a letter class plus an upper-case bit) together with a `str` subclass that
+lets `phrase in path` reach the solver when the phrase is symbolic and the path is
+concrete.
 
 Nothing here knows about aioslsk.  All proxies fail loudly (TypeError /
 AttributeError / HarnessError) when the code under test applies an operation that
@@ -12,7 +13,7 @@ from __future__ import annotations
 import z3
 
 from engine import symex
-from engine.symex import SBool, SInt, HarnessError
+from engine.symex import SBool, HarnessError
 
 
 # --------------------------------------------------------------------------
